@@ -1160,7 +1160,7 @@ func drawTrevc3(t *rapid.T) kase {
 	c.K = rapid.SampledFrom([]int{0, 0, 1, 3}).Draw(t, "extra")
 	c.Pad = drawPads(t, 3)
 	c.LW = drawLW(t)
-	c.Cls = rapid.IntRange(0, 3).Draw(t, "mode")
+	c.Cls = rapid.IntRange(0, 4).Draw(t, "mode")
 	c.Seed = drawSeed(t)
 	return c
 }
@@ -1329,7 +1329,7 @@ func drawTrexc(t *rapid.T) kase {
 	c.Ilo = rapid.IntRange(0, 1000).Draw(t, "ifst")
 	c.Ihi = rapid.IntRange(0, 1000).Draw(t, "ilst")
 	c.Pad = drawPads(t, 2)
-	c.Cls = rapid.IntRange(0, 3).Draw(t, "mode")
+	c.Cls = rapid.IntRange(0, 4).Draw(t, "mode")
 	c.Seed = drawSeed(t)
 	return c
 }
